@@ -92,6 +92,10 @@ def run(ck):
                 vlrs = fio.rand_vlrs(ck.rng, False)
                 evlrs = fio.rand_vlrs(ck.rng, True) if (minor >= 4 and ck.rng.random() < 0.6) else None
                 kind = ck.rng.choice(["bytesio", "bytesio", "path", "file", "rawfile"])
+                if k == 2 and minor >= 4:
+                    # whatever the seed: every 1.4 pair once through a path with EVLRs after the points (the memory map must stop at the last point)
+                    kind = "path"
+                    evlrs = evlrs or [("verif", 7, "after the points", bytes(range(90)))]
                 try:
                     import datetime as _dt
                     las = fio.make_las(ck.rng, minor, fmt, n, params, vlrs=vlrs, evlrs=evlrs, scales=scales, offsets=offsets, style=style,
